@@ -9,12 +9,15 @@ from .. import tlc, mbt
 from ..common import Verdict, use_repo, SEED
 
 BASE = dict(MaxNodes=3, Keys=['k1', 'k2', 'M'], Vals=['v1'], MaxEntries=2, MaxElems=2, MapTags=['map'],
-            SeqTags=['seq'], Modes=['A'], AllowSelf=True)
+            SeqTags=['seq'], Modes=['A'], AllowSelf=True, MergeShape='"any"')
 CONFIGS = {
     'merge3': dict(BASE),
     'deep4': dict(BASE, MaxNodes=4, Keys=['k1', 'M'], Vals=[], SeqTags=[], AllowSelf=False),
     'shapes': dict(BASE, MaxNodes=2, Keys=['k1', 'k1f', 'Q', 'U', 'M'], MapTags=['map', 'set'],
                    SeqTags=['seq', 'omap', 'pairs']),
+    # several merge keys (mapping and list valued) over shared sources, sources reused after the merging mapping
+    'mlist4': dict(BASE, MaxNodes=4, Keys=['k1', 'k2', 'M'], Vals=['v1'], MaxElems=1, Modes=['C'], AllowSelf=False,
+                   MergeShape='"refs"'),
     # thorough only
     'merge3w': dict(BASE, Vals=['v1', 'v2'], Modes=['A', 'B', 'C']),
     'deep4v': dict(BASE, MaxNodes=4, Keys=['k1', 'M'], SeqTags=[], AllowSelf=False, Modes=['A', 'C']),
@@ -22,7 +25,7 @@ CONFIGS = {
                     SeqTags=['seq', 'omap', 'pairs'], Modes=['A', 'B']),
     'deep5': dict(BASE, MaxNodes=5, Keys=['k1', 'M'], Vals=[], SeqTags=[], AllowSelf=False, Modes=['A', 'C']),
 }
-TIERS = {'quick': ['merge3', 'deep4', 'shapes'],
+TIERS = {'quick': ['merge3', 'deep4', 'shapes', 'mlist4'],
          'thorough': ['merge3w', 'deep4v', 'shapesw', 'deep5']}
 
 KEYTXT = {'k1': '1', 'k1f': '1.0', 'k2': 'b', 'M': '<<', 'Q': '"<<"', 'U': '? []'}
@@ -32,6 +35,8 @@ VALTXT = {'v1': 'x', 'v2': 'y'}
 def tla(v):
     if isinstance(v, bool):
         return 'TRUE' if v else 'FALSE'
+    if isinstance(v, str):
+        return v
     if isinstance(v, list):
         return '{' + ', '.join('"%s"' % x for x in v) + '}'
     return str(v)
@@ -162,7 +167,9 @@ def work(states, extra):
             except Exception as e:
                 out = ('exception:' + type(e).__name__, str(e)[:200])
             why = None
-            if h['err']:
+            if h['err'] and h.get('soft') and out[0] == 'ok':
+                pass        # the statement allows a value here (omap entry written with a merge key meaning one pair)
+            elif h['err']:
                 if out[0] != 'ConstructorError':
                     why = 'expected a ConstructorError, got %s %r' % (out[0], out[1])
             else:
